@@ -183,7 +183,7 @@ def c07(out):
         run_sharded(out, exe, ["--prop", "C07", "--mode", "model", "--structured", str(3 * 28 * 2 * 2)], vname, cases)
         if vname in ("prod", "clang"):
             # single calls of 4096 .. 1048577 blocks (32 KiB .. 16 MiB): every cipher x back end x direction x in-place
-            run_sharded(out, exe, ["--prop", "C07", "--mode", "big", "--case-timeout", "600"], vname, 36 * 12 if vname == "prod" else 36 * 4, shards=12, label="big")
+            run_sharded(out, exe, ["--prop", "C07", "--mode", "big", "--case-timeout", "600"], vname, 36 * 13 if vname == "prod" else 36 * 4, shards=12, label="big")
     if out.tier == "thorough":
         _huge(out, "par", [(0, 2, 0), (0, 2, 1), (1, 2, 0), (1, 2, 1), (2, 2, 0), (2, 2, 1), (0, 1, 1), (1, 0, 1)])
     out.assumptions += ["single-block functions are tied to the specification by C01/C02",
